@@ -2,3 +2,4 @@ import SfProofs.Table
 import SfProofs.Bytes
 import SfProofs.Adpcm
 import SfProofs.FormatCheck
+import SfProofs.FloatPcm
